@@ -135,6 +135,18 @@ type genCfg struct {
 
 // GenTree generates a script for the tree world for the given property.
 func GenTree(prop string, r *sim.Rand, tier string) sim.Script {
+	sc := genTree0(prop, r, tier)
+	// options added later are drawn last, so that the scripts of earlier seeds keep their operations
+	if s, ok := sc.(*TreeScript); ok {
+		if s.Observe == "" && r.Chance(1, 4) {
+			s.Observe = "clone"
+		}
+		s.IterAll = r.Chance(1, 3)
+	}
+	return sc
+}
+
+func genTree0(prop string, r *sim.Rand, tier string) sim.Script {
 	s := &TreeScript{Prop: prop}
 	s.Store = []string{"mem", "lvlmem", "lvlp", "p", "lvlpp"}[r.Intn(5)]
 	s.Cache = []string{"own", "own", "shared"}[r.Intn(3)]
@@ -520,7 +532,7 @@ func GenRounds(prop string, r *sim.Rand, tier string) sim.Script {
 			} else {
 				s.Ops = append(s.Ops, Op{K: "discard", T: kidx})
 			}
-			if prop == "C04" && r.Chance(1, 10) {
+			if (prop == "C04" || prop == "C05") && r.Chance(1, 10) {
 				s.Ops = append(s.Ops, Op{K: "midsave"})
 			}
 		}
